@@ -1097,15 +1097,16 @@ func (w *wbuild) checkBuild(res *InvResult, req BuildReq, opts InvOpts, cm *cach
 					w.recordedNow[kS] = true
 					if sp.NonHermetic {
 						e := ext0["epoch"]
-						if faulted || !opts.Remote {
+						if faulted || !opts.Remote || w.depToggled(u, sp) {
 							e = "?" // recorded under faults / only locally: what the remote holds is open
 						}
-						cm.nhLast[kS] = e
+						// (keyed by the loose key: grog's key covers output-less dependencies as well)
+						cm.nhLast[kL] = e
 						if w.remoteNH != nil {
 							if opts.Remote && !faulted {
-								w.remoteNH[kS] = e
+								w.remoteNH[kL] = e
 							} else if opts.Remote {
-								w.remoteNH[kS] = "?"
+								w.remoteNH[kL] = "?"
 							}
 						}
 					}
@@ -1253,15 +1254,15 @@ func (w *wbuild) checkBuild(res *InvResult, req BuildReq, opts InvOpts, cm *cach
 		if sp.NonHermetic && executed[l] == 0 {
 			// restored: the bytes of the execution whose result this machine holds (its own last
 			// recording, else what the remote held when it was fetched)
-			kS := ev.Strict(l)
-			e := cm.nhLast[kS]
+			kS, kL := ev.Strict(l), ev.Loose(l)
+			e := cm.nhLast[kL]
 			if e == "" && w.remoteNH != nil {
-				e = w.remoteNH[kS]
-				cm.nhLast[kS] = e
+				e = w.remoteNH[kL]
+				cm.nhLast[kL] = e
 			}
-			if e == "" || e == "?" || unc0[kS] || cm.unc[kS] || faulted || w.remoteLossy {
+			if e == "" || e == "?" || unc0[kS] || cm.unc[kS] || faulted || w.remoteLossy || w.depToggled(u, sp) {
 				if e != "" {
-					cm.nhLast[kS] = "?"
+					cm.nhLast[kL] = "?"
 				}
 				continue
 			}
